@@ -73,14 +73,19 @@ pub fn line_to_cmds(line: &str) -> Vec<String> {
     let mut sep = String::new();
     let mut token = String::new();
     let mut has_backslash = false;
+    // the previous character was a blank, and not an escaped one
+    let mut last_blank = false;
     let len = line.chars().count();
     for (i, c) in line.chars().enumerate() {
         if has_backslash {
             token.push('\\');
             token.push(c);
             has_backslash = false;
+            last_blank = false;
             continue;
         }
+        let after_blank = last_blank;
+        last_blank = c == ' ';
 
         if c == '\\' && sep != "'" {
             has_backslash = true;
@@ -89,7 +94,7 @@ pub fn line_to_cmds(line: &str) -> Vec<String> {
 
         if c == '#' {
             // a comment starts where a word could start, not inside one
-            if sep.is_empty() && (token.is_empty() || token.ends_with(' ')) {
+            if sep.is_empty() && (token.is_empty() || after_blank) {
                 break;
             } else {
                 token.push(c);
